@@ -205,8 +205,9 @@ func runC17(t *testing.T, f c17flow, prefix []int) explore.ExecResult {
 	return res
 }
 
-// inbound QoS 2: the gateway's PUBLISH / PUBREL may be duplicated, also after the exchange finished
-func runC17inbound(t *testing.T, prefix []int) explore.ExecResult {
+// inbound QoS 2: two exchanges (message ids 5 and 6) whose PUBLISH (also duplicated) and PUBREL
+// (also retransmitted, also after the exchange finished) datagrams arrive in every order
+func runC17inbound(t *testing.T, depth int, prefix []int) explore.ExecResult {
 	res, _ := explore.Bubble(t, prefix, func(s *vsched.Sched) (string, []explore.Violation) {
 		s.NoChoice = true
 		c := cl.New(s, c17cfg())
@@ -214,42 +215,71 @@ func runC17inbound(t *testing.T, prefix []int) explore.ExecResult {
 		c.Go("Subscribe", func() error { return c.C.Subscribe("xy", 2, c.Handler("xy")) })
 		c.Take()
 		s.NoChoice = false
-		pub := refsn.Pkt{Type: refsn.PUBLISH, TIT: 2, TopicID: uint16('x')<<8 | 'y', MsgID: 5, QoS: 2, Data: []byte("in")}.Encode()
-		pubdup := refsn.Pkt{Type: refsn.PUBLISH, TIT: 2, TopicID: uint16('x')<<8 | 'y', MsgID: 5, QoS: 2, DUP: true, Data: []byte("in")}.Encode()
-		rel := refsn.Pkt{Type: refsn.PUBREL, MsgID: 5}.Encode()
-		pubrels, pubcomps, pubrecs := 0, 0, 0
-		send := func(b []byte) {
-			c.FromGateway(b)
-			for _, o := range c.Take() {
-				if o.Err == nil && o.P.Type == refsn.PUBCOMP && o.P.MsgID == 5 {
-					pubcomps++
-				}
-				if o.Err == nil && o.P.Type == refsn.PUBREC && o.P.MsgID == 5 {
-					pubrecs++
+		ids := []uint16{5, 6}
+		pubSent := map[uint16]bool{}
+		rels := map[uint16]int{}
+		var vs []explore.Violation
+		var hist []string
+		add := func(sig, f string, a ...any) {
+			vs = append(vs, explore.Violation{Property: "C17", Sig: "inbound-q2:" + sig, Detail: fmt.Sprintf("gateway sends %v: ", hist) + fmt.Sprintf(f, a...), Scenario: "inbound"})
+		}
+		for step := 0; step < depth && len(vs) == 0; step++ {
+			type item struct {
+				name string
+				p    refsn.Pkt
+			}
+			var menu []item
+			for _, id := range ids {
+				pl := []byte(fmt.Sprintf("in%d", id))
+				if !pubSent[id] {
+					menu = append(menu, item{fmt.Sprintf("PUBLISH(%d)", id), refsn.Pkt{Type: refsn.PUBLISH, TIT: 2, TopicID: uint16('x')<<8 | 'y', MsgID: id, QoS: 2, Data: pl}})
+				} else {
+					if rels[id] == 0 {
+						menu = append(menu, item{fmt.Sprintf("PUBLISH-dup(%d)", id), refsn.Pkt{Type: refsn.PUBLISH, TIT: 2, TopicID: uint16('x')<<8 | 'y', MsgID: id, QoS: 2, DUP: true, Data: pl}})
+					}
+					menu = append(menu, item{fmt.Sprintf("PUBREL(%d)", id), refsn.Pkt{Type: refsn.PUBREL, MsgID: id}})
 				}
 			}
+			it := menu[s.Choose(len(menu), "gateway sends")]
+			hist = append(hist, it.name)
+			c.FromGateway(it.p.Encode())
+			var got []string
+			for _, o := range c.Take() {
+				got = append(got, o.String())
+			}
+			want := refsn.Pkt{Type: refsn.PUBREC, MsgID: it.p.MsgID}
+			if it.p.Type == refsn.PUBREL {
+				rels[it.p.MsgID]++
+				want = refsn.Pkt{Type: refsn.PUBCOMP, MsgID: it.p.MsgID}
+			} else {
+				pubSent[it.p.MsgID] = true
+			}
+			if len(s.Panics) > 0 {
+				add("panic", "%s", s.Panics[0])
+			} else if len(got) != 1 || got[0] != want.String() {
+				kind := "publish-not-answered-with-pubrec"
+				if it.p.Type == refsn.PUBREL {
+					kind = fmt.Sprintf("pubrel-not-answered:finished-before=%t", rels[it.p.MsgID] > 1)
+				}
+				add(kind, "%s answered with %v, want exactly %s", it.name, got, want)
+			}
 		}
-		send(pub)
-		for i := 0; i < s.Choose(3, "PUBLISH duplicated"); i++ {
-			send(pubdup)
+		for _, id := range ids {
+			n := 0
+			for _, d := range c.Deliv {
+				if d.Payload == fmt.Sprintf("in%d", id) {
+					n++
+				}
+			}
+			wantN := 0
+			if rels[id] > 0 {
+				wantN = 1
+			}
+			if n != wantN && len(vs) == 0 {
+				add(fmt.Sprintf("handler-runs=%d:want=%d", n, wantN), "QoS 2 message %d delivered to the handler %d times (PUBRELs sent: %d)", id, n, rels[id])
+			}
 		}
-		n := 1 + s.Choose(3, "PUBREL retransmitted")
-		for i := 0; i < n; i++ {
-			pubrels++
-			send(rel)
-		}
-		var vs []explore.Violation
-		if len(s.Panics) > 0 {
-			vs = append(vs, explore.Violation{Property: "C17", Sig: "inbound-q2:panic", Detail: s.Panics[0]})
-		}
-		if pubcomps != pubrels {
-			vs = append(vs, explore.Violation{Property: "C17", Sig: fmt.Sprintf("inbound-q2:pubrel-not-answered:pubrels=%d:pubcomps=%d", pubrels, pubcomps),
-				Detail: fmt.Sprintf("gateway sent PUBREL(5) %d times (retransmissions after the exchange finished included), client answered with %d PUBCOMPs", pubrels, pubcomps)})
-		}
-		if len(c.Deliv) != 1 {
-			vs = append(vs, explore.Violation{Property: "C17", Sig: fmt.Sprintf("inbound-q2:handler-runs=%d", len(c.Deliv)), Detail: fmt.Sprintf("QoS 2 message delivered to the handler %d times", len(c.Deliv))})
-		}
-		out := fmt.Sprintf("rels=%d comps=%d recs=%d deliv=%d", pubrels, pubcomps, pubrecs, len(c.Deliv))
+		out := fmt.Sprintf("%v deliv=%d", hist, len(c.Deliv))
 		s.NoChoice = true
 		c.Finish()
 		return out, vs
@@ -263,18 +293,31 @@ func TestC17(t *testing.T) {
 		f := f
 		scs = append(scs, explore.Scenario{Name: f.name, Run: func(p []int) explore.ExecResult { return runC17(t, f, p) }})
 	}
-	scs = append(scs, explore.Scenario{Name: "inbound QoS 2 with duplicated PUBLISH / PUBREL", Run: func(p []int) explore.ExecResult { return runC17inbound(t, p) }})
+	depth := 6
+	if explore.Tier() == "thorough" {
+		depth = 8
+	}
+	inbound := []explore.Scenario{{Name: "inbound QoS 2: two exchanges, duplicated PUBLISH / retransmitted PUBREL in every order", Run: func(p []int) explore.ExecResult { return runC17inbound(t, depth, p) }}}
 	if explore.IsWorker() {
-		explore.ServeScenarios(scs)
+		explore.ServeScenarios(append(scs, inbound...))
 		return
 	}
 	rep := explore.NewReport("C17", "fault_enumeration")
-	explore.RunScenarios(rep, scs, explore.ScenarioOpts{Test: "TestC17", QuickBound: 3, ThoroughFrom: 3, ThoroughMax: 6, Unbounded: true,
-		QuickBudget: 90 * time.Second, ThoroughBudge: 8 * time.Minute})
+	if explore.RunScenarios(rep, scs, explore.ScenarioOpts{Test: "TestC17", QuickBound: 3, ThoroughFrom: 3, ThoroughMax: 6, Unbounded: true,
+		QuickBudget: 90 * time.Second, ThoroughBudge: 6 * time.Minute}) {
+		// the inbound flow is enumerated completely (every datagram order up to the depth), not deviation-bounded
+		explore.RunScenarios(rep, inbound, explore.ScenarioOpts{Test: "TestC17", QuickBound: -1, ThoroughFrom: -1, ThoroughMax: -1,
+			QuickBudget: 150 * time.Second, ThoroughBudge: 12 * time.Minute})
+	}
 	// fault_enumeration evidence uses the generic keys
-	rep.Coverage["evaluations"] = rep.Coverage["schedules"]
+	evals, _ := rep.Coverage["schedules"].(int)
+	if se, ok := rep.Coverage["schedule_exploration"].(map[string]any); ok {
+		n, _ := se["schedules"].(int)
+		evals += n
+	}
+	rep.Coverage["evaluations"] = evals
 	rep.Coverage["distinct_nontrivial"] = rep.Coverage["states"]
-	rep.Coverage["rule"] = "for each API flow (Publish q1/q2 on registered, short and predefined topics, q0, q-1, Subscribe, Register, Unsubscribe; RetryCount 2, RetryDelay 1 s) against a scripted gateway: every transmission of the client is answered correctly (default), not answered (request or reply lost) or answered twice; all fault patterns with at most 3 deviations (thorough: up to 6, then all); plus the inbound QoS 2 flow with the gateway's PUBLISH and PUBREL duplicated 0-2 times, also after completion; distinct_nontrivial = distinct (transmission log, return value) outcomes"
+	rep.Coverage["rule"] = "for each API flow (Publish q1/q2 on registered, short and predefined topics, q0, q-1, Subscribe, Register, Unsubscribe; RetryCount 2, RetryDelay 1 s) against a scripted gateway: every transmission of the client is answered correctly (default), not answered (request or reply lost) or answered twice; all fault patterns with at most 3 deviations (thorough: up to 6, then all); plus two concurrent inbound QoS 2 exchanges whose PUBLISH (first and DUP copies) and PUBREL datagrams (retransmitted, also after completion, also after the other exchange finished) arrive in every order up to 6 (thorough 8) datagrams: each is answered by exactly one PUBREC/PUBCOMP with its id and each message reaches the handler once; distinct_nontrivial = distinct (transmission log, return value) outcomes"
 	rep.Assumptions = []string{"default schedule (fault choices only)", "a lost request and a lost reply are the same event for the client"}
 	rep.Finish()
 }
